@@ -9,13 +9,15 @@ EXHAUSTIVE = True
 CHUNK = 1
 RULE = ("complete product: 17 branch mnemonics x every byte distance -300..+300 x 8 target spellings (.+-n octal, forward/backward label "
         "with a .blkb filler, label+-n, local label n / n:, decimal .+n., <.+n>, (.+n)); sob x 8 registers x every distance -140..+6 x the "
-        "same spellings; PC-relative operands in 7 placements x 13 targets x 4 link bases decoded by the independent decoder; the same operand kinds inside an included file aiming at the including file (include at 4 offsets, 3 link regimes) and inside an unrolled '.repeat' body aiming at labels outside it (1-6 iterations). Accepted "
+        "same spellings; PC-relative operands in 7 placements x 13 targets x 4 link bases decoded by the independent decoder, and behind 12 first operands that take no operand word (pc, (pc), @pc, -(pc), @-(pc), sp, autoincrement/decrement forms) x 3 mnemonics; the same operand kinds inside an included file aiming at the including file (include at 4 offsets, 3 link regimes) and inside an unrolled '.repeat' body aiming at labels outside it (1-6 iterations). Accepted "
         "<=> distance even and inside the field's reach; accepted cases are batched and compared with the reference encoding, refused "
         "cases run alone and must fail with an error. Non-trivial = distinct (mnemonic, spelling, distance) or (placement, target, base)")
 ASSUMPTIONS = ["reference opcodes and decoder from pdpmc/ref/isa.py", "which error kind is reported (out-of-bounds or odd) is not demanded"]
 BR = sorted(n for n, (c, _b, _e) in isa.T.items() if c == "B")
 SPELL = ["dot", "label", "labelpm", "local", "localcolon", "decimal", "angle", "paren"]
 BASES = [0, 0o1000, 0o100000, 0o177770]
+FIRST_NOWORD = [("pc", 0, 7), ("r7", 0, 7), ("(pc)", 1, 7), ("@pc", 1, 7), ("-(pc)", 4, 7), ("@-(pc)", 5, 7), ("sp", 0, 6), ("(sp)+", 2, 6),
+                ("@(r3)+", 3, 3), ("-(r5)", 4, 5), ("@-(r0)", 5, 0), ("(r4)", 1, 4)]
 
 
 def bound(tier):
@@ -256,3 +258,9 @@ def check(case, r, tier):
                 c01.run_one("mov", base, "mov 6(r2), %s%s" % (at, tt), ["SD", 0o10000, [["gen", 6, 2, "val", 6], ["gen", m, 7, "rel", tv]]], r)
                 for t2, v2 in targets(2)[:8]:
                     c01.run_one("cmp", base, "cmp %s%s, %s" % (at, t2, tt), ["SD", 0o20000, [["gen", m, 7, "rel", v2], ["gen", 6, 7, "rel", tv]]], r)
+            # a first operand that names the program counter (or any register) without taking an operand word: the
+            # relative operand behind it is counted from the word after its own displacement word all the same
+            for tt, tv in targets(2):
+                for ft, fm, fr in FIRST_NOWORD:
+                    for mn, opb in (("mov", 0o10000), ("add", 0o60000), ("bisb", 0o150000)):
+                        c01.run_one(mn, base, "%s %s, %s%s" % (mn, ft, at, tt), ["SD", opb, [["gen", fm, fr, None, None], ["gen", m, 7, "rel", tv]]], r)
